@@ -48,8 +48,19 @@ func verifDump(n node) string {
 		}
 		return "(" + verifDump(x.Left) + " " + x.Op + " " + verifDump(x.Right) + ")"
 	case *axisNode:
-		test := x.Prop
-		if test == "" {
+		// render the node test by what is matched, so that '.' and
+		// self::node() (same typeTest, different Prop) dump alike
+		var test string
+		switch {
+		case x.Prop == "processing-instruction":
+			test = "processing-instruction(" + x.LocalName + ")"
+		case x.typeTest == allNode:
+			test = "node()"
+		case x.typeTest == TextNode:
+			test = "text()"
+		case x.typeTest == CommentNode:
+			test = "comment()"
+		default:
 			test = x.LocalName
 			if test == "" {
 				test = "*"
@@ -57,8 +68,6 @@ func verifDump(n node) string {
 			if x.Prefix != "" {
 				test = x.Prefix + ":" + test
 			}
-		} else {
-			test += "()"
 		}
 		return "step(" + verifDump(x.Input) + "," + x.AxisType + "," + test + ")"
 	case *operandNode:
